@@ -797,13 +797,14 @@ fn check_case(ctx: &mut Ctx, cc: &CaseCtx) -> Option<(Vec<u8>, HashMap<u32, u32>
             let legit = open_font(&view.data, view.index).and_then(|f| legitimate_error(view, &f, req, &e));
             if let Some(why) = legit {
                 ctx.count("subset_error_legitimate", 1);
-                ctx.label("subset_error_legitimate", &format!("{}: {} ({})", view.name, e, why));
+                let _ = &why;
+                ctx.label("subset_error_legitimate", &format!("{}: {} (would exceed klippa's 256 x source-table size limit, lib.rs try_subset)", view.name, e));
                 return None;
             }
             let is_cmap = e.contains("'cmap'");
             let _ = is_cmap;
             let tag = e.split('\'').nth(1).unwrap_or("?").to_string();
-            let sig = format!("subset-error:{}:{}:{}", tag.trim(), cc.kind.s(), view.name);
+            let sig = format!("subset-error:{}:{}", tag.trim(), view.name);
             ctx.violation(&sig, cc.detail(json!({"error": e})), None);
             return None;
         }
@@ -831,6 +832,17 @@ fn check_case(ctx: &mut Ctx, cc: &CaseCtx) -> Option<(Vec<u8>, HashMap<u32, u32>
         return None;
     }
 
+    // (1a) maxp and loca must agree on the number of glyphs
+    if let Ok(l) = sub.loca(None) {
+        if l.len() as u32 != n_sub {
+            ctx.violation(
+                &cc.sig("maxp-loca-glyph-count"),
+                cc.detail(json!({"maxp_num_glyphs": n_sub, "loca_glyphs": l.len()})),
+                None,
+            );
+            return None;
+        }
+    }
     // (1b) loca must not point past the end of glyf
     let mut glyf_corrupt = false;
     if let (Ok(l), Ok(g), Ok(h)) = (sub.loca(None), sub.glyf(), sub.head()) {
@@ -1008,14 +1020,15 @@ fn check_case(ctx: &mut Ctx, cc: &CaseCtx) -> Option<(Vec<u8>, HashMap<u32, u32>
     // (4) characters
     let scm = sub.charmap();
     let mut bad_chars = 0;
-    let report_char = |ctx: &mut Ctx, c: u32, g: u32, got: Option<u32>, where_: &str, bad_chars: &mut u32| {
+    let sub_chosen_format = sub.cmap().ok().and_then(|c| chosen_cmap_record(&c)).map(|c| c.2);
+    let report_char = |ctx: &mut Ctx, c: u32, g: u32, got: Option<u32>, where_: &str, seen_in_format4: bool, bad_chars: &mut u32| {
         *bad_chars += 1;
         if *bad_chars > 3 {
             return;
         }
         let want = rel.get(&g).copied();
         let what = if got.is_none() { "cmap-unmapped" } else { "cmap-wrong-glyph" };
-        let sig = if any_format4_later_rangeoffset(&sub, c) {
+        let sig = if seen_in_format4 && any_format4_later_rangeoffset(&sub, c) {
             format!("cmap-wrong-glyph:format4-multi-rangeoffset:{}", view.name)
         } else if !scm.has_map() {
             // the subset has no cmap subtable skrifa can use at all
@@ -1036,7 +1049,7 @@ fn check_case(ctx: &mut Ctx, cc: &CaseCtx) -> Option<(Vec<u8>, HashMap<u32, u32>
     for &(c, g) in &ex.chars {
         let got = scm.map(c).map(|x| x.to_u32());
         if got != rel.get(&g).copied() {
-            report_char(ctx, c, g, got, "skrifa charmap", &mut bad_chars);
+            report_char(ctx, c, g, got, "skrifa charmap", sub_chosen_format == Some(4), &mut bad_chars);
         }
     }
     ctx.count("char_mappings_checked", ex.chars.len() as u64);
@@ -1097,7 +1110,7 @@ fn check_case(ctx: &mut Ctx, cc: &CaseCtx) -> Option<(Vec<u8>, HashMap<u32, u32>
                 }
                 ctx.count("subtable_mappings_checked", 1);
                 if s != rel.get(&g).copied() {
-                    report_char(ctx, c, g, s, &format!("cmap subtable ({},{}) format {}", p, e, sst.format()), &mut bad_chars);
+                    report_char(ctx, c, g, s, &format!("cmap subtable ({},{}) format {}", p, e, sst.format()), sst.format() == 4, &mut bad_chars);
                 }
             }
         }
@@ -1111,7 +1124,12 @@ fn check_case(ctx: &mut Ctx, cc: &CaseCtx) -> Option<(Vec<u8>, HashMap<u32, u32>
     }
     ctx.distinct("flag_combinations", req.flags as u64);
     ctx.label("request_shapes", req.shape);
-    ctx.label("flag_sets", &flag_names(req.flags));
+    ctx.label("core_flag_sets", &flag_names(req.flags & (F_NO_HINTING | F_RETAIN_GIDS | F_NOTDEF_OUTLINE | F_SET_OVERLAPS)));
+    for b in EXTRA_FLAGS {
+        if req.flags & b != 0 {
+            ctx.label("extra_flags_seen", &flag_names(b));
+        }
+    }
     if let Ok(h) = sub.head() {
         ctx.label("subset_loca_format", if h.index_to_loc_format() == 0 { "short" } else { "long" });
     }
@@ -1350,14 +1368,21 @@ fn load_views(ctx: &mut Ctx) -> Vec<View> {
     let mut views = vec![];
     for f in fonts {
         if !seen.insert(fnv64(&f.data)) {
-            ctx.count("fonts_duplicate_skipped", 1);
+            if ctx.shard.0 == 0 {
+                ctx.count("fonts_duplicate_skipped", 1);
+            }
             continue;
         }
         let index = if f.name.ends_with(".ttc") { Some(0) } else { None };
         match View::build(&f.name, &f.path.to_string_lossy(), f.data.clone(), index, None, ctx.seed) {
             Ok(v) => views.push(v),
             Err(why) => {
-                ctx.count(&format!("fonts_skipped:{}", why), 1);
+                if ctx.shard.0 == 0 {
+                    ctx.count(&format!("fonts_skipped:{}", why), 1);
+                    if why != "no glyf" {
+                        ctx.label("fonts_skipped", &format!("{} ({})", f.name, why));
+                    }
+                }
             }
         }
     }
@@ -1373,7 +1398,13 @@ fn load_views(ctx: &mut Ctx) -> Vec<View> {
     views
 }
 
-const EXHAUSTIVE_MAX_CHARS: usize = 13;
+fn exhaustive_max_chars(thorough: bool) -> usize {
+    if thorough {
+        14
+    } else {
+        13
+    }
+}
 
 pub fn run(ctx: &mut Ctx, args: &Args) {
     ctx.policy = PanicPolicy::Any;
@@ -1411,7 +1442,7 @@ pub fn run(ctx: &mut Ctx, args: &Args) {
             cases.push((everything_request(view, *f), true));
         }
         let big = view.n_glyphs > 2000;
-        if k <= EXHAUSTIVE_MAX_CHARS {
+        if k <= exhaustive_max_chars(thorough) {
             // exhaustive over all subsets of the mapped characters
             let flagsets: Vec<u16> = if thorough {
                 vec![0, F_RETAIN_GIDS, F_NOTDEF_OUTLINE | F_NO_HINTING, F_RETAIN_GIDS | F_NOTDEF_OUTLINE | F_SET_OVERLAPS]
@@ -1425,17 +1456,32 @@ pub fn run(ctx: &mut Ctx, args: &Args) {
                     cases.push((Req { chars: chars.clone(), gids: vec![], flags: *f, shape: "exhaustive-chars" }, idem));
                 }
             }
-            ctx.count("fonts_exhaustive", 1);
-            ctx.count("exhaustive_char_subsets", 1u64 << k);
+            if ctx.shard.0 == 0 {
+                ctx.count("fonts_exhaustive", 1);
+                ctx.count("exhaustive_char_subsets", 1u64 << k);
+            }
         } else {
             all_exhaustive = false;
         }
-        let n_random = if k <= EXHAUSTIVE_MAX_CHARS {
-            ctx.tier.pick(40, 300)
+        // every glyph alone, requested by id: per-glyph data of every table is
+        // exercised for every glyph (and closure, renumbering to gid 1..)
+        {
+            let stride = if thorough || view.n_glyphs <= 1400 { 1 } else { (view.n_glyphs / 400).max(1) };
+            let mut g = 0;
+            while g < view.n_glyphs {
+                let fl: &[u16] = if thorough { &[0, F_RETAIN_GIDS | F_NOTDEF_OUTLINE] } else if g % 2 == 0 { &[0] } else { &[F_RETAIN_GIDS | F_NOTDEF_OUTLINE] };
+                for f in fl {
+                    cases.push((Req { chars: vec![], gids: vec![g], flags: *f, shape: "gid:single" }, thorough && !big));
+                }
+                g += stride;
+            }
+        }
+        let n_random = if k <= exhaustive_max_chars(thorough) {
+            ctx.tier.pick(100, 1000)
         } else if big {
-            ctx.tier.pick(48, 400)
+            ctx.tier.pick(200, 3200)
         } else {
-            ctx.tier.pick(160, 1600)
+            ctx.tier.pick(700, 12000)
         };
         for _ in 0..n_random {
             let r = random_request(view, &mut rng_font);
@@ -1456,7 +1502,7 @@ pub fn run(ctx: &mut Ctx, args: &Args) {
     ctx.exhaustive = Some(false);
     ctx.extra.insert(
         "exhaustive_part".into(),
-        json!(format!("all 2^k character subsets of every font with k <= {} mapped characters are enumerated (all fonts exhaustive: {})", EXHAUSTIVE_MAX_CHARS, all_exhaustive)),
+        json!(format!("all 2^k character subsets of every font with k <= {} mapped characters are enumerated (all fonts exhaustive: {})", exhaustive_max_chars(thorough), all_exhaustive)),
     );
 }
 
